@@ -762,6 +762,8 @@ def _emit_item(unit, g, src, it, iid, label, a, fnq, emit, canary, spec):
                     rs_, cl_ = mcall._recv_start(t, src.br, i), src.br[i + 2]
                     if t[i + 1].text == 'into_iter' and t[cl_ + 1].text == '{' and t[rs_ - 1].kind == 'id' and t[rs_ - 1].text == 'in':
                         continue      # `for x in v.into_iter() {`: the iterable of a for loop stays (Verus iterates a Vec natively)
+                    if t[i + 1].text == 'into_iter' and t[rs_ - 1].text == '(' and t[rs_ - 2].text == 'extend' and t[cl_ + 1].text == ')':
+                        continue      # `x.extend(y.into_iter())`: extend takes any IntoIterator, the real into_iter (under contract) stays
                     sites.append((rs_, i, cl_))
             # several calls of one chain share the receiver start: the outermost call's opening text must come first
             for rs, dot, close in sorted(sites, key=lambda x: (x[0], -x[1])):
